@@ -28,7 +28,7 @@ RULE = (
     "give A's result. (b) explicit-state BFS over histories of %d estimator specs "
     "with the event alphabet {fit(D_a), fit(D_b), fit(D_c), fit(D_d = D_a re-located by parts in 1e7, other readings), predict, filter(D_a), grid, score(last dataset), scatter, profile, clone, set_params(**get_params()), switch to an "
     "alternative / back to the base parameter set through set_params, caller overwrites the arrays it passed earlier}, depth 3 (thorough 4), every history replayed on a fresh estimator (histories merged on (abstract state, concrete fingerprint) only for SplineCV), invariant: the "
-    "fingerprint equals that of the shortest history with the same abstract state; (b2) histories of depth 3 (thorough 5) over ONE instance of each of 9 parameter-only objects (BlockReduce x3, BlockMean x2, BlockKFold x2, BlockShuffleSplit, CheckerBoard) with the alphabet {call on D_a / D_b / D_c, switch a parameter and back, clone, params round trip, caller overwrites everything passed and received}: every call equals that of a fresh instance with the current parameters. (c) %d single inconsistencies that must raise. "
+    "fingerprint equals that of the shortest history with the same abstract state; (b2) histories of depth 3 (thorough 5) over ONE instance of each of 9 parameter-only objects (BlockReduce x3, BlockMean x2, BlockKFold x2, BlockShuffleSplit, CheckerBoard) with the alphabet {call on D_a / D_b / D_c, call again with the same array objects reversed in place, switch a parameter and back, clone, params round trip, caller overwrites everything passed and received}: every call equals that of a fresh instance with the current parameters. (c) %d single inconsistencies that must raise. "
     "Non-trivial: every case."
     " Added axes: read-only / view / Fortran variants compared with round-off tolerance, scribble on outputs then repeat, same array objects with new contents, interference sequences A, B, A over 26 function families, parameter switch events with stale states, invalid table of about 150 inconsistent calls (shapes, component counts, both / neither of shape and spacing, inverted and out-of-range regions incl. UTM-scale and geographic ones)."
 )
@@ -585,21 +585,27 @@ def _obj_specs(vd):
 
 
 OBJ_SPECS = sorted(_obj_specs(_Dummy()))
-OBJ_EVENTS = ["call_a", "call_b", "call_c", "alt", "base", "clone", "params", "overwrite"]
+OBJ_EVENTS = ["call_a", "call_b", "call_c", "again", "alt", "base", "clone", "params", "overwrite"]
 
 
-def _obj_call(obj, how, which, owned=None):
-    e, n, d0, d1 = _pts(which)
-    e, n, d0, d1 = e.copy(), n.copy(), d0.copy(), d1.copy()
-    w = 1.0 + (np.arange(e.size).reshape(e.shape) % 3) * 0.5
-    if owned is not None:
+def _obj_call(obj, how, which, owned=None, keep=None, arrays=None):
+    if arrays is not None:
+        e, n, d0, d1, w, X = arrays
+    else:
+        e, n, d0, d1 = _pts(which)
+        e, n, d0, d1 = e.copy(), n.copy(), d0.copy(), d1.copy()
+        w = 1.0 + (np.arange(e.size).reshape(e.shape) % 3) * 0.5
+        X = np.column_stack([e.ravel(), n.ravel()])
+    if keep is not None:
+        keep[:] = [which, (e, n, d0, d1, w, X)]
+    if owned is not None and arrays is None:
         owned += [e, n, d0, d1, w]
     if how == "filter":
         out = obj.filter((e, n), (d0, d1) if which == "b" else d0)
     elif how == "filterw":
         out = obj.filter((e, n), d0, w)
     elif how == "split":
-        out = [(tr.copy(), te.copy()) for tr, te in obj.split(np.column_stack([e.ravel(), n.ravel()]))]
+        out = [(tr.copy(), te.copy()) for tr, te in obj.split(X)]
     else:
         out = (obj.predict((e, n)), obj.grid(shape=(3, 4)) if which != "c" else obj.scatter(size=4, random_state=2), obj.profile((0, 0), (3, 1), 4) if which == "b" else None)
     if owned is not None:
@@ -862,12 +868,33 @@ def run(case, rec):
 
         def replay(hist):
             """Replays the history on ONE instance; returns (canonical result of the last event if it was a call, oracle for it, parameter set)."""
-            obj, pset, owned, got, want = mk(), "base", [], None, None
+            obj, pset, owned, got, want, keep = mk(), "base", [], None, None, []
             for ev in hist:
                 got = want = None
-                if ev.startswith("call_"):
+                if ev == "again":
+                    # the caller reverses, IN PLACE, the arrays of its last call and calls again with the very same array objects (round 8,
+                    # seed C11-15: block labels memoised on the identity of the coordinate array)
+                    if not keep:
+                        continue
+                    which, arrs = keep
+                    for a in arrs:
+                        a[...] = a[::-1, ::-1].copy() if a.ndim == 2 and a is not arrs[5] else a[::-1].copy()
+                    if arrs[0].ndim == 2:
+                        arrs[5][...] = np.column_stack([arrs[0].ravel(), arrs[1].ravel()])
                     try:
-                        got = _canon(_obj_call(obj, how, ev[-1], owned))
+                        got = _canon(_obj_call(obj, how, which, owned, keep, arrays=arrs))
+                    except Exception as exc:  # noqa: BLE001
+                        got = "raised " + type(exc).__name__
+                    fresh = mk()
+                    setp(fresh, palt if pset == "alt" else pbase)
+                    try:
+                        want = _canon(_obj_call(fresh, how, which, arrays=tuple(np.array(a, copy=True) for a in arrs)))
+                    except Exception as exc:  # noqa: BLE001
+                        want = "raised " + type(exc).__name__
+                    rec.trans(2)
+                elif ev.startswith("call_"):
+                    try:
+                        got = _canon(_obj_call(obj, how, ev[-1], owned, keep))
                     except Exception as exc:  # noqa: BLE001
                         got = "raised " + type(exc).__name__
                     fresh = mk()
@@ -903,7 +930,7 @@ def run(case, rec):
                 for ev in OBJ_EVENTS:
                     h2 = hist + [ev]
                     nxt.append(h2)
-                    if not ev.startswith("call_"):
+                    if not (ev.startswith("call_") or ev == "again"):
                         continue  # only histories that end in a call observe anything new (prefixes were checked at their own depth)
                     got, want, pset = replay(h2)
                     nhist += 1
